@@ -195,14 +195,48 @@ def _run_entry(case, cfg_path, obs):
     verbose = bool(case.get("verbose"))
     buf = io.StringIO()
     with contextlib.redirect_stdout(buf):
-        if entry == "loader":
-            from chuk_mcp.transports.stdio.stdio_client import stdio_client
+        legacy = case.get("legacy")
+        if entry == "loader" and legacy in ("transport", "asyncgen"):
+            # the old package layout: `chuk_mcp.mcp_client.StdioClient` (today's StdioTransport) and the old
+            # `stdio_client_with_initialize` (an async generator yielding once)
+            import chuk_mcp.mcp_client as L
 
             async def main():
                 with anyio.fail_after(ENTRY_TIMEOUT_S):
                     params, timeout = await load_config(cfg_path, names[0])
                     obs["ret"] = {"command": params.command, "args": list(params.args),
                                   "env": None if params.env is None else dict(params.env), "timeout": timeout}
+                    for _ in range(case.get("repeat", 1)):
+                        if legacy == "transport":
+                            async with L.StdioClient(params) as t:
+                                r, w = await t.get_streams()
+                                obs["handshake"] = bool(await L.send_initialize(r, w, timeout=10.0))
+                                obs["ping"] = bool(await L.send_ping(r, w, timeout=10.0))
+                        else:
+                            async for r, w, init in L.stdio_client_with_initialize(params, timeout=10.0):
+                                obs["handshake"] = bool(init)
+                                obs["ping"] = bool(await L.send_ping(r, w, timeout=10.0))
+
+            anyio.run(main)
+        elif entry == "loader":
+            if legacy == "names":
+                from chuk_mcp.mcp_client import stdio_client
+            elif legacy == "modules":
+                stdio_client = sys.modules["chuk_mcp.mcp_client.transport.stdio.stdio_client"].stdio_client \
+                    if __import__("chuk_mcp.mcp_client") else None
+            else:
+                from chuk_mcp.transports.stdio.stdio_client import stdio_client
+
+            async def main():
+                with anyio.fail_after(ENTRY_TIMEOUT_S):
+                    params, timeout = await load_config(cfg_path, names[0])
+                    obs["ret"] = {"command": params.command, "args": list(params.args),
+                                  "env": None if params.env is None else dict(params.env), "timeout": timeout}
+                    if legacy == "modules":
+                        # what an old host did around a session: parameters class and shutdown helper from the shims
+                        shim = sys.modules["chuk_mcp.mcp_client.transport"]
+                        assert isinstance(params, shim.stdio.stdio_server_parameters.StdioServerParameters)
+                        await shim.stdio.stdio_server_shutdown.shutdown_stdio_server(None, None, None)
                     # repeat: the SAME parameters object serves a second connection
                     for _ in range(case.get("repeat", 1)):
                         async with stdio_client(params) as (r, w):
@@ -256,7 +290,10 @@ def _run_entry(case, cfg_path, obs):
                         root.removeHandler(h)
                 root.setLevel(level)
         elif entry == "runner":
-            from chuk_mcp.mcp_client.host import server_manager as SM
+            if case.get("legacy"):
+                import chuk_mcp.mcp_client as SM          # the old package layout re-exports run_command
+            else:
+                from chuk_mcp.mcp_client.host import server_manager as SM
 
             got = {"n": None, "pings": [], "info": None}
 
@@ -469,7 +506,7 @@ def run_cli_case(case):
         buf = io.StringIO()
         try:
             with contextlib.redirect_stdout(buf):
-                M.main()
+                (M.run if case.get("via") == "run" else M.main)()      # `run` is the console-script entry point
             obs["exit"] = "returned"
         except SystemExit as ex:
             obs["exit"] = ex.code if isinstance(ex.code, int) else (0 if ex.code is None else 1)
